@@ -135,6 +135,13 @@ def owner(framing, context, front=None, **opts):
                                  active_connections={}, control=None)
 
 
+import atexit as _atexit, os as _os
+if _os.environ.get('VERIF_SHOW_CUTS'):
+    _atexit.register(lambda: print('CUTS', CUTS[0], _os.getpid()))
+EMPTY = 'empty-datagram'   # marker in a list of reads: a datagram without payload (datagram front-ends; ignored by the others)
+CUTS = [0]                 # reads longer than the size a handler asked for (delivered in pieces, as a socket does)
+
+
 class FakeSock(object):
     """request object of the sync stream handlers"""
 
@@ -142,20 +149,32 @@ class FakeSock(object):
         self.reads, self.res, self.serial = list(reads), res, serial
         self.handler = None
         self.calls = 0
+        self.rest = b''
 
     def recv(self, n):
         self.calls += 1
         if self.calls > len(self.res.per_read) + 50 + len(self.reads):
             self.res.stuck = True
             raise KeyboardInterrupt('handler spins')
-        while self.reads and callable(self.reads[0]):
-            self.reads.pop(0)()               # run-time event between two reads (e.g. reconfiguration of the context)
+        while self.reads and (callable(self.reads[0]) or isinstance(self.reads[0], str)):
+            ev = self.reads.pop(0)            # run-time event between two reads (e.g. reconfiguration of the context)
+            if callable(ev):                  # (string markers are events for datagram front-ends only)
+                ev()
         if self.reads and isinstance(self.reads[0], BaseException):
             raise self.reads.pop(0)           # an idle period longer than the socket's receive timeout (socket.timeout) etc.
+        if self.rest:
+            self.calls -= 1
+            out, self.rest = self.rest[:n], self.rest[n:]
+            return out
         if self.reads:
             self.res.fed += 1
             self.res.per_read.append(b'')
-            return self.reads.pop(0)
+            chunk = self.reads.pop(0)
+            if isinstance(n, int) and 0 < n < len(chunk):
+                # like the operating system: at most n bytes per call, the rest of what has arrived with the next call
+                CUTS[0] += 1
+                chunk, self.rest = chunk[:n], chunk[n:]
+            return chunk
         if self.serial and self.handler is not None:
             self.handler.running = False      # the port stays open; stop the endless serve loop
         return b''
@@ -304,7 +323,13 @@ def _sync_udp(res, framing, context, reads, opts):
     srv = owner(framing, context, 'sync-udp', **opts)
     peers, k = opts.get('peers') or [], -1
     for dg in reads:
-        if callable(dg) or isinstance(dg, BaseException):
+        if dg == EMPTY:
+            try:                              # a datagram without payload (legal UDP): nothing to answer, nothing to break
+                sy.ModbusDisconnectedRequestHandler((b'', FakeSock([], res)), PEER, srv)
+            except Exception as e:  # noqa
+                res.escaped.append(e)
+            continue
+        if callable(dg) or isinstance(dg, (BaseException, str)):
             if callable(dg):
                 dg()
             continue
@@ -371,7 +396,7 @@ async def _aio_tcp(res, framing, context, reads, opts):
     burst = list(opts.get('burst') or [])       # group sizes: that many reads are queued before the handler task gets to run
     pending = 0
     for chunk in reads:
-        if callable(chunk) or isinstance(chunk, BaseException):
+        if callable(chunk) or isinstance(chunk, (BaseException, str)):
             if callable(chunk):
                 chunk()
             continue
@@ -411,7 +436,15 @@ async def _aio_udp(res, framing, context, reads, opts):
     burst = list(opts.get('burst') or [])
     peers, k, pending = opts.get('peers') or [], -1, 0
     for dg in reads:
-        if callable(dg) or isinstance(dg, BaseException):
+        if dg == EMPTY:
+            try:
+                h.datagram_received(b'', PEER)
+            except Exception as e:  # noqa
+                res.escaped.append(e)
+            if not pending:
+                await _drain(h)
+            continue
+        if callable(dg) or isinstance(dg, (BaseException, str)):
             if callable(dg):
                 dg()
             continue
@@ -470,7 +503,7 @@ def _tw_tcp(res, framing, context, reads, opts):
     p.makeConnection(tr)
     seen = 0
     for chunk in reads:
-        if callable(chunk) or isinstance(chunk, BaseException):
+        if callable(chunk) or isinstance(chunk, (BaseException, str)):
             if callable(chunk):
                 chunk()
             continue
@@ -501,7 +534,13 @@ def _tw_udp(res, framing, context, reads, opts):
     p.makeConnection(tr)
     peers, k = opts.get('peers') or [], -1
     for dg in reads:
-        if callable(dg) or isinstance(dg, BaseException):
+        if dg == EMPTY:
+            try:
+                p.datagramReceived(b'', PEER)
+            except Exception as e:  # noqa
+                res.escaped.append(e)
+            continue
+        if callable(dg) or isinstance(dg, (BaseException, str)):
             if callable(dg):
                 dg()
             continue
